@@ -117,6 +117,12 @@ def render_q(q, prefix='models.'):
     if t == 'wrap':
         # single-child nesting: Q(Q(...))
         return '%sQ(%s)' % (prefix, render_q(q['c'], prefix))
+    if t == 'conn1':
+        # one child under a non-default connector (built programmatically:
+        # Q(*conditions, _connector=Q.OR) with a single condition)
+        c = q['c']
+        return "%sQ(%s=%s, _connector='%s')" % (
+            prefix, c['k'], pyval(c['v']), q['op'].upper())
     op = {'and': ' & ', 'or': ' | ', 'xor': ' ^ '}[t]
     return '(%s)' % op.join(render_q(c, prefix) for c in q['c'])
 
@@ -124,7 +130,7 @@ def render_q(q, prefix='models.'):
 def q_fields(q):
     if q['q'] == 'leaf':
         return {q['k'].split('__')[0]}
-    if q['q'] in ('not', 'wrap'):
+    if q['q'] in ('not', 'wrap', 'conn1'):
         return q_fields(q['c'])
     out = set()
     for c in q['c']:
@@ -141,7 +147,7 @@ def q_rename(q, old, new):
             if parts[0] == old:
                 parts[0] = new
                 n['k'] = '__'.join(parts)
-        elif n['q'] in ('not', 'wrap'):
+        elif n['q'] in ('not', 'wrap', 'conn1'):
             walk(n['c'])
         else:
             for c in n['c']:
